@@ -110,7 +110,8 @@ def gen_fast_case(rng, malformed=False, small=False, big=False):
     draws = [valid_draws(rng, sum(r[k] for r in jds)) for k in range(T)] if jds else []
     return {"kind": "fast", "jds": jds, "sizes": sizes, "builds": builds, "names": names, "draws": draws,
             "handshake": not malformed, "as_tuple": [rng.random() < 0.4 for _ in builds],
-            **({"reenter": rng.randrange(T)} if rng.random() < 0.12 and not big and not malformed else {})}
+            **({"reenter": rng.randrange(T)} if rng.random() < 0.12 and not big and not malformed else {}),
+            **({"shared_buffer": [k for k in range(T) if rng.random() < 0.6]} if rng.random() < 0.15 else {})}
 
 
 def gen_custom_case(rng, malformed=False, small=False):
@@ -173,7 +174,8 @@ def gen_custom_case(rng, malformed=False, small=False):
     return {"kind": "custom", "jds": jds, "sizes": sizes, "orbits": orbits, "builds": builds, "names": names,
             "draws": draws, "handshake": not malformed, "as_tuple": [rng.random() < 0.4 for _ in builds],
             "names_iter": [rng.random() < 0.25 for _ in builds],
-            **({"reenter": rng.randrange(M)} if rng.random() < 0.12 and not malformed else {})}
+            **({"reenter": rng.randrange(M)} if rng.random() < 0.12 and not malformed else {}),
+            **({"shared_buffer": [k for k in range(M) if rng.random() < 0.6]} if rng.random() < 0.15 else {})}
 
 
 class ShuffleScript:
@@ -240,6 +242,7 @@ def run_generator(case, path="direct", algo=None, real_rng=False):
 
     depth = {"d": 0, "done": False}
     holder = {}
+    buffers = {k: [] for k in (case.get("shared_buffer") or [])}
 
     def wrap(k, f):
         def g(vs):
@@ -256,7 +259,11 @@ def run_generator(case, path="direct", algo=None, real_rng=False):
             r = f(vs)
             if k < len(as_tuple) and as_tuple[k] and not _is_bare(r):
                 r = tuple(tuple(e) for e in r)        # the same edges, handed back as a tuple of tuples instead of a list
-            calls.append({"top": k, "verts": list(vs), "result": r})
+            calls.append({"top": k, "verts": list(vs), "result": r if _is_bare(r) else type(r)(r)})
+            if k in buffers and isinstance(r, list):
+                # a callback that refills and hands back one pre-allocated list: what it returned is valid until its next call
+                buffers[k][:] = r
+                return buffers[k]
             return r
         return g
     params = {GN.MOTIF_SIZES: list(case["sizes"]),
